@@ -320,9 +320,27 @@ def check_property(pid, tier):
                 except Undecided as e:
                     undecided.append(str(e))
         extra = []
+        import kani_runner
         if not undecided:
-            import extras
-            extra = extras.run_extras(pid, pc, tier, workdir, REPO, seed)
+            extra = kani_runner.run_for(pid, pc, tier, workdir, REPO, seed)
+        else:
+            # a unit outside Verus' reach (front-end error on changed code): let the registered Kani harnesses of the
+            # undecided units look for a counterexample; a failing harness is a violation, a passing one decides nothing
+            force = []
+            for u, hs in pc.get('kani_fallback', {}).items():
+                if any(x.startswith(u + ':') for x in undecided):
+                    force += hs
+            if force:
+                fb = kani_runner.run_for(pid, pc, tier, workdir, REPO, seed, force=force)
+                fb_failed = [e for e in fb if e['failed']]
+                if fb_failed:
+                    extra = fb_failed
+                    for u in undecided:
+                        print('NOTE: property=%s Verus could not decide (%s); Kani fallback found a counterexample' % (pid, u.split('\n')[0][:200]))
+                    undecided = []
+                else:
+                    for e in fb:
+                        undecided += e.get('undecided', [])
         violations = []
         known_hits = []
         total_obs = {}
